@@ -3,7 +3,7 @@
 #   m3, m4: (1) demo passes on the clean tree, (2) patch applies, builds, demo fails, (3) the whole existing suite passes with the patch
 #   b1..b3 (benign refactorings): applied together, build without new warnings, the whole suite passes
 id=$1
-wt=/tmp/wt-$id
+wt=${WTPREFIX:-/tmp/wt-}$id
 cd $wt || exit 2
 git checkout -q -- . ; git clean -fdq -e '*.o' -e '*.lo' >/dev/null 2>&1
 rundemo() { d=$1
@@ -16,7 +16,7 @@ suite() { # logfile
   echo "SUITE_PASS=$(grep -h '^# PASS:' $(find . -name test-suite.log) | awk '{s+=$3} END{print s}') FAIL=$(grep -h '^# FAIL:' $(find . -name test-suite.log) | awk '{s+=$3} END{print s}') ERROR=$(grep -h '^# ERROR:' $(find . -name test-suite.log) | awk '{s+=$3} END{print s}')"
   grep -h '^FAIL:\|^ERROR:' $(find . -name test-suite.log) 2>/dev/null | head -5
 }
-for m in $(for k in ${MLIST:-m3 m4}; do echo /tmp/wt-$id-out/$k; done); do
+for m in $(for k in ${MLIST:-m3 m4}; do echo ${WTPREFIX:-/tmp/wt-}$id-out/$k; done); do
   [ -d $m ] || continue
   log=$m/confirm.log; : > $log
   make -j16 >/dev/null 2>&1
@@ -27,13 +27,13 @@ for m in $(for k in ${MLIST:-m3 m4}; do echo /tmp/wt-$id-out/$k; done); do
   suite $m/suite.log >> $log
   git checkout -q -- . ; git clean -fdq -e '*.o' -e '*.lo' >/dev/null 2>&1
 done
-blog=/tmp/wt-$id-out/b-confirm.log; : > $blog
-for b in $(for k in ${BLIST:-b1 b2 b3}; do echo /tmp/wt-$id-out/$k; done); do
+blog=${WTPREFIX:-/tmp/wt-}$id-out/b-confirm.log; : > $blog
+for b in $(for k in ${BLIST:-b1 b2 b3}; do echo ${WTPREFIX:-/tmp/wt-}$id-out/$k; done); do
   [ -d $b ] || continue
   if git apply $b/patch.diff 2>>$blog; then echo "APPLIED $(basename $b)" >> $blog; else echo "APPLY_FAILED $(basename $b)" >> $blog; fi
 done
 make -j16 2>&1 | grep -c "warning:" | sed 's/^/BUILD_WARNINGS=/' >> $blog
-suite /tmp/wt-$id-out/b-suite.log >> $blog
+suite ${WTPREFIX:-/tmp/wt-}$id-out/b-suite.log >> $blog
 git checkout -q -- . ; git clean -fdq -e '*.o' -e '*.lo' >/dev/null 2>&1
 make -j16 >/dev/null 2>&1
 echo "confirm2 done $id"
